@@ -608,3 +608,13 @@ M("grn1-no-foreign-check", "C15", GL, "            if glet is not greenlet_getcu
 T("grn1-twin-early-return", "C15", GL, "        inner_frame = glet.gr_frame\n        outer_frame = None\n        if inner_frame is None:\n            if not glet:  # dead or not started\n                return []\n", "        inner_frame = glet.gr_frame\n        outer_frame = None\n        if inner_frame is None:\n            if bool(glet) is False:  # dead or not started\n                return []\n", accept_analysis_error=True)
 M("eng6-contexts-block-continues", "C03", EX, "            except Exception as ex:  # pragma: no cover\n                save_errors.append(ex)\n            else:\n                for context in frame.contexts:", "            except Exception as ex:  # pragma: no cover\n                save_errors.append(ex)\n                continue\n            else:\n                for context in frame.contexts:", ["ENG-6"], accept_analysis_error=True)
 M("slc4-c03-order-swapped", "C03", GL, "        return (gen.gi_frame, gen.gi_yieldfrom)", "        return (gen.gi_yieldfrom, gen.gi_frame)", "SLC-4")
+
+# ---------------------------------------------------------------- FMT-18
+M("fmt18-child-indicator-negated", "C18", "_types.py", "                    elif line.startswith(child_context_indicator):", "                    elif not line.startswith(child_context_indicator):", "FMT-18")
+M("fmt18-heading-last-line", "C18", "_types.py", "                    sublines[0] = f\"{child.root!r}\\n\"", "                    sublines[-1] = f\"{child.root!r}\\n\"", "FMT-18")
+
+# ---------------------------------------------------------------- OPC-3c
+M("opc3c-extended-arg-any-with", "C08", LL, "            while is_async and insns[idx + skip_insns - 5].opname == \"EXTENDED_ARG\":", "            while insns[idx + skip_insns - 5].opname == \"EXTENDED_ARG\":", "OPC-3c")
+M("opc3c-extended-arg-wrong-place", "C08", LL, "            while is_async and insns[idx + skip_insns - 5].opname == \"EXTENDED_ARG\":", "            while is_async and insns[idx + skip_insns - 4].opname == \"EXTENDED_ARG\":", ["OPC-3c", "OPC-3b"], accept_analysis_error=True)
+M("opc3c-cleanup-throw-not-skipped", "C08", LL, "                    and insns[idx + skip_insns].opname == \"CLEANUP_THROW\"", "                    and insns[idx + skip_insns].opname == \"CLEANUP_THROW_\"", ["OPC-3c", "OPC-3b", "VER-1"], accept_analysis_error=True)
+
